@@ -62,6 +62,7 @@ func ppConfig(h engine.Heap, obj string) map[string]string {
 	m["wrapErrs"] = h.Get(obj, "wrapErrs").Key()
 	m["wrappedErr"] = h.Get(obj, "wrappedErr").Key()
 	m["markerOpen"] = h.Get(obj, "buf.Buffer.markerOpen").Key()
+	m["lent"], _ = constStr(h.Get(obj, "buf.Buffer.#lent"))
 	return m
 }
 
@@ -164,6 +165,12 @@ func (h *fmtHooks) OnStore(c *engine.Ctx, instr ssa.Instruction, addr engine.Ptr
 						nf[k] = v
 					}
 					nf["Buffer.#ctx"] = str(newCtx)
+					// ownership: src lends its buffer; the copy itself is
+					// nobody's lender (a hand-back overwrites the flag)
+					nf["Buffer.#lent"] = str("F")
+					if o := c.Heap[src]; o != nil && src != addr.Obj {
+						o.Fields["buf.Buffer.#lent"] = str("T")
+					}
 					c.It.Record(engine.Event{Kind: "bufcopy", Instr: instr, Fn: c.Fn, Detail: map[string]string{
 						"from": cfgString(ppConfig(c.Heap, src)), "to": cfgString(ppConfig(c.Heap, addr.Obj)), "newctx": newCtx}})
 					return engine.StructV{Fields: nf}
@@ -322,10 +329,11 @@ func ppPoolInvariant(t string) map[string]engine.AbsVal {
 		return nil
 	}
 	return map[string]engine.AbsVal{
-		"override":        num(0),
-		"buf.Buffer.mode": num(0),
-		"buf.Buffer.#ctx": str("none"),
-		"wrappedErr":      engine.NilV{},
+		"override":         num(0),
+		"buf.Buffer.mode":  num(0),
+		"buf.Buffer.#ctx":  str("none"),
+		"buf.Buffer.#lent": str("F"),
+		"wrappedErr":       engine.NilV{},
 	}
 }
 
@@ -384,7 +392,7 @@ func (c *Ctx) AFmt() *AFmt {
 			{Type: tFmt, Field: "buf"}: true,
 		},
 		SliceIdent:    map[engine.TrackSpec]bool{{Type: tBuffer, Field: "buf"}: true},
-		Ghosts:        map[string]map[string]engine.AbsVal{tBuffer: {"#ctx": str("none")}},
+		Ghosts:        map[string]map[string]engine.AbsVal{tBuffer: {"#ctx": str("none"), "#lent": str("F")}},
 		PoolInvariant: ppPoolInvariant,
 		NoPanicPkgs:   map[string]bool{pkgBuffer: true, pkgRfmt + "/fmtsort": true},
 		Hooks:         hooks,
@@ -421,7 +429,7 @@ func (c *Ctx) AFmt() *AFmt {
 			bt := c.P.SSAPkg("builder").Type("StringBuilder").Type()
 			_, isPtr := fn.Signature.Recv().Type().(*types.Pointer)
 			for _, bs := range bufStates {
-				fields := map[string]engine.AbsVal{"Buffer.mode": num(bs.mode), "Buffer.#ctx": str("none")}
+				fields := map[string]engine.AbsVal{"Buffer.mode": num(bs.mode), "Buffer.#ctx": str("none"), "Buffer.#lent": str("F")}
 				h := engine.Heap{}
 				a2 := append([]engine.AbsVal{}, args...)
 				if isPtr {
@@ -450,7 +458,7 @@ func (c *Ctx) AFmt() *AFmt {
 					}
 					ppT := c.P.SSAPkg("internal/rfmt").Type("pp").Type()
 					fields := map[string]engine.AbsVal{
-						"override": num(0), "buf.Buffer.mode": num(1), "buf.Buffer.#ctx": str("none"),
+						"override": num(0), "buf.Buffer.mode": num(1), "buf.Buffer.#ctx": str("none"), "buf.Buffer.#lent": str("F"),
 						"panicking": boolv(false), "erroring": boolv(false), "wrapErrs": boolv(we),
 						"fmt.buf": engine.Ptr{Obj: "in0", Path: "buf"},
 					}
